@@ -98,6 +98,42 @@ func c08CheckRoundTrips(t c08Fataler, orig *Conf, ctx string) {
 		}
 	}
 
+	// ---- global, written onto a configuration that has default global parameters (and the same pathDefaults and
+	// paths): what GET returns carries the whole global configuration, so the result must again equal the original.
+	// (Writing a configuration back onto itself cannot notice a parameter that the write path ignores.)
+	{
+		b, _ := json.Marshal(orig.Global())
+		var og OptionalGlobal
+		if err := c08DecodeLikeAPI(b, &og); err != nil {
+			t.Fatalf("%s\nglobal: what GET returns is refused by PATCH: %v", ctx, err)
+		}
+		base := c08FreshBase(orig, true)
+		base.PatchGlobal(&og)
+		if err := base.Validate(nil); err != nil {
+			t.Fatalf("%s\nglobal: what GET returns, written onto default global parameters, fails validation: %v\njson: %s", ctx, err, c08Clip(b))
+		}
+		if d := c08Compare(base, orig, ""); d != "" {
+			t.Fatalf("%s\nglobal: what GET returns, written onto default global parameters, does not reproduce the configuration: %s\njson: %s", ctx, d, c08Clip(b))
+		}
+	}
+
+	// ---- path defaults, written onto default path defaults
+	{
+		b, _ := json.Marshal(orig.PathDefaults)
+		var op OptionalPath
+		if err := c08DecodeLikeAPI(b, &op); err != nil {
+			t.Fatalf("%s\npathDefaults: what GET returns is refused by PATCH: %v", ctx, err)
+		}
+		base := c08FreshBase(orig, false)
+		base.PatchPathDefaults(&op)
+		if err := base.Validate(nil); err != nil {
+			t.Fatalf("%s\npathDefaults: what GET returns, written onto default path defaults, fails validation: %v\njson: %s", ctx, err, c08Clip(b))
+		}
+		if d := c08Compare(base, orig, ""); d != "" {
+			t.Fatalf("%s\npathDefaults: what GET returns, written onto default path defaults, does not reproduce the configuration: %s\njson: %s", ctx, d, c08Clip(b))
+		}
+	}
+
 	// ---- path defaults
 	{
 		b, err := json.Marshal(orig.PathDefaults)
@@ -163,6 +199,25 @@ func c08CheckRoundTrips(t c08Fataler, orig *Conf, ctx string) {
 			t.Fatalf("%s\npath %q: replace with its sparse form changed the configuration: %s\njson: %s", ctx, name, d, c08Clip(sb))
 		}
 	}
+}
+
+// c08FreshBase returns a configuration with default global parameters (freshGlobal) or default path defaults
+// (!freshGlobal) and everything else cloned from orig, not yet validated.
+func c08FreshBase(orig *Conf, freshGlobal bool) *Conf {
+	cl := orig.Clone()
+	def := &Conf{}
+	def.setDefaults()
+	def.AuthInternalUsers = c08DeepCopyUsers(def.AuthInternalUsers)
+	setAllNilSlicesToEmptyRecursive(reflect.ValueOf(def))
+	if freshGlobal {
+		def.PathDefaults = cl.PathDefaults
+		// deprecated global record* parameters were folded into the path defaults by the first validation;
+		// they travel with the global part and are re-applied there
+		def.OptionalPaths = cl.OptionalPaths
+		return def
+	}
+	cl.PathDefaults = def.PathDefaults
+	return cl
 }
 
 func c08Clip(b []byte) string {
